@@ -1,5 +1,5 @@
 SPECIFICATION Spec
-CONSTANTS BlockLists = {"b1", "b2"}
+CONSTANTS BlockLists = {"b1"}
           AllowLists = {"a1"}
           AsIsC = FALSE
           CosmC = FALSE
@@ -7,6 +7,6 @@ CONSTANTS BlockLists = {"b1", "b2"}
           ForcedBeh <- BehTiny
           SchedBeh <- BehTiny
           FileBeh <- BehTiny
-          SetURLBeh <- BehNone
-          SetURLAsIs = FALSE
+          SetURLBeh <- BehSetURL
+          SetURLAsIs = TRUE
 INVARIANTS InvCoherent
